@@ -39,7 +39,7 @@ func VerifC03Forged() {
 	prov := vstub.NewProvider()
 	w := vstub.NewIdentity("w", prov)
 	m := vstub.NewIdentity("mallory", prov)
-	ac := vstubodb.Writers("id-a", "id-w")
+	ac := vstubodb.Writers(vstub.IDOf("a"), vstub.IDOf("w"))
 	a, env := openAC("a", blocks, ac)
 	if a == nil {
 		return
@@ -71,7 +71,15 @@ func VerifC03Forged() {
 	switch idKind {
 	case 0: // own identity block
 	case 1: // own block, id replaced by the writer's
-		f.SetIdentity(&idp.Identity{ID: w.ID, PublicKey: m.PublicKey, Signatures: m.Signatures, Type: m.Type})
+		sigs := m.Signatures
+		switch vstub.NdChoice("id-signatures", 3) {
+		case 0: // the attacker's own signatures, as they are
+		case 1: // the id re-signed with the attacker's key (it can sign anything with its own key), the writer's voucher copied
+			sigs = &idp.IdentitySignature{ID: vstub.SignToken(m.PublicKey, []byte(w.ID)), PublicKey: w.Signatures.PublicKey}
+		case 2: // the id re-signed with the attacker's key, the attacker's own voucher
+			sigs = &idp.IdentitySignature{ID: vstub.SignToken(m.PublicKey, []byte(w.ID)), PublicKey: m.Signatures.PublicKey}
+		}
+		f.SetIdentity(&idp.Identity{ID: w.ID, PublicKey: m.PublicKey, Signatures: sigs, Type: m.Type})
 	case 2: // a copy of the writer's identity block
 		f.SetIdentity(w.Filtered())
 	}
@@ -97,14 +105,10 @@ func VerifC03Forged() {
 	if forged == nil {
 		return
 	}
-	// KNOWN FINDING C03-id-not-bound-to-key: naming a writer's id (own block with the id
-	// swapped, or a copy of the writer's block) while signing with one's own key is accepted:
-	// VerifyIdentity is a no-op and nothing ties entry.Key to entry.Identity.
+	// naming a writer's id (own block with the id swapped, or a copy of the writer's block)
+	// while signing with one's own key: the identity's signature chain does not hold
 	if idKind != 0 && keyKind == 0 && sigKind == 0 {
 		vstub.Cover("id-swap")
-		if vstub.KnownFinding("C03-id-not-bound-to-key") {
-			return
-		}
 	}
 
 	route := vstub.NdChoice("route", 3)
@@ -164,12 +168,12 @@ func VerifC03LocalWrite() {
 	allowed := false
 	switch listKind {
 	case 0:
-		opts.AccessController = vstubodb.Writers("id-a", "id-w")
+		opts.AccessController = vstubodb.Writers(vstub.IDOf("a"), vstub.IDOf("w"))
 	case 1:
 		opts.AccessController = vstubodb.Writers("*")
 		allowed = true
 	case 2:
-		opts.AccessController = vstubodb.Writers("id-a", "id-mallory")
+		opts.AccessController = vstubodb.Writers(vstub.IDOf("a"), vstub.IDOf("mallory"))
 		allowed = true
 	case 3:
 		opts.AccessController = nil // default: the creator (this identity) only
